@@ -7,6 +7,7 @@ use rbx_types::{Ref, UniqueId};
 
 mod dom_replay;
 mod bytes_replay;
+mod ss_replay;
 
 fn print_forms() {
     let ids: [(u32, u32, i64); 7] = [
@@ -54,6 +55,7 @@ fn main() {
     let r = catch_unwind(AssertUnwindSafe(|| match cmd {
         "print-forms" => print_forms(),
         "migrate" => migrate(&args[2..]),
+        "sstring" => ss_replay::main(&args[2..]),
         "dom" => dom_replay::main(&args[2..]),
         "bytes" => bytes_replay::main(&args[2..]),
         _ => {
